@@ -108,94 +108,6 @@ theorem wf_aux (c c' : Content κ) (h : WF c) (hw : c'.weighted = c.weighted) (h
     rw [hw] at hw'; rw [he] at hee
     exact h.unit hw' e hee
 
-theorem wf_apply? (c c' : Content κ) (op : Op κ) (h : WF c) (e : apply? c op = some c') : WF c' := by
-  cases op with
-  | addNode n md => simp only [apply?, Option.some.injEq] at e; subst e; exact wf_addNode c n md h
-  | addEdge k w md =>
-    simp only [apply?, addEdge] at e
-    split at e
-    · cases e; exact wf_addEdgeCore c k _ md h
-    · cases e
-  | removeEdge k =>
-    simp only [apply?, removeEdge] at e
-    split at e
-    · cases e
-      refine ⟨h.nodes_nodup, C05AL.keys_erase_nodup _ _ h.keys_nodup, ?_, ?_⟩
-      · intro k' hk'
-        simp only [keysOf, AL.keys_erase_perm] at hk'
-        exact h.members_in k' (List.mem_of_mem_erase hk')
-      · intro hw e he; exact h.unit hw e (C05AL.mem_erase _ _ _ he)
-    · cases e
-  | setWeight k w =>
-    simp only [apply?, setWeight] at e
-    split at e
-    · cases e
-    · next hok =>
-      cases hg : AL.get? c.edges k with
-      | none => simp [hg] at e
-      | some v =>
-        simp only [hg, Option.some.injEq] at e; subst e
-        apply wf_setEdge c k _ h ((C05AL.mem_keys_iff _ _).2 (by simp [hg]))
-        intro hw
-        simp only [hw, Bool.not_false, Bool.true_and, bne_iff_ne, ne_eq, Decidable.not_not] at hok
-        exact hok
-  | setNodeMeta n md =>
-    simp only [apply?, setNodeMeta] at e
-    split at e
-    · next hh => cases e; exact wf_setNode c n md h ((C05AL.has_iff _ _).1 hh)
-    · cases e
-  | setEdgeMeta k md =>
-    simp only [apply?, setEdgeMeta] at e
-    cases hg : AL.get? c.edges k with
-    | none => simp [hg] at e
-    | some v =>
-      simp only [hg, Option.some.injEq] at e; subst e
-      apply wf_setEdge c k _ h ((C05AL.mem_keys_iff _ _).2 (by simp [hg]))
-      intro hw; exact h.unit hw (k, v) (C05AL.mem_of_get? _ _ _ hg)
-  | setNodeAttr n a v =>
-    simp only [apply?, setNodeAttr] at e
-    cases hg : AL.get? c.nodes n with
-    | none => simp [hg] at e
-    | some md =>
-      simp only [hg, Option.some.injEq] at e; subst e
-      exact wf_setNode c n _ h ((C05AL.mem_keys_iff _ _).2 (by simp [hg]))
-  | setEdgeAttr k a v =>
-    simp only [apply?, setEdgeAttr] at e
-    cases hg : AL.get? c.edges k with
-    | none => simp [hg] at e
-    | some x =>
-      simp only [hg, Option.some.injEq] at e; subst e
-      apply wf_setEdge c k _ h ((C05AL.mem_keys_iff _ _).2 (by simp [hg]))
-      intro hw; exact h.unit hw (k, x) (C05AL.mem_of_get? _ _ _ hg)
-  | setIncMeta k st n md =>
-    simp only [apply?, setIncMeta] at e
-    split at e
-    · cases e; exact wf_aux c _ h rfl rfl rfl
-    · cases e
-  | setIncAttr k st n a v =>
-    simp only [apply?, setIncAttr] at e
-    split at e
-    · cases e
-    · cases e; exact wf_aux c _ h rfl rfl rfl
-  | addEmptyEdge name md =>
-    simp only [apply?, addEmptyEdge] at e
-    split at e
-    · cases e
-    · cases e; exact wf_aux c _ h rfl rfl rfl
-  | setHyperMeta md => simp only [apply?, Option.some.injEq] at e; subst e; exact wf_aux c _ h rfl rfl rfl
-  | setHyperAttr a v => simp only [apply?, Option.some.injEq] at e; subst e; exact wf_aux c _ h rfl rfl rfl
-
-theorem wf_step (c : Content κ) (op : Op κ) (h : WF c) : WF (step c op) := by
-  unfold step
-  cases e : apply? c op with
-  | none => exact h
-  | some c' => exact wf_apply? c c' op h e
-
-theorem wf_run (c : Content κ) (ops : List (Op κ)) (h : WF c) : WF (run c ops) := by
-  induction ops generalizing c with
-  | nil => exact h
-  | cons op ops ih => exact ih (step c op) (wf_step c op h)
-
 /-! ## the state array -/
 
 theorem get?_mutateSlot (sl : Slots κ) (i j : Nat) (op : Op κ) :
